@@ -93,7 +93,7 @@ struct OwnCrystal {
     cs.a = d.cell[0]; cs.b = d.cell[1]; cs.c = d.cell[2]; cs.alpha = d.cell[3]; cs.beta = d.cell[4]; cs.gamma = d.cell[5];
     cs.volume = d.model_volume();
     cs.n_atom = (int)d.atoms.size();
-    cs.atom = (Crystal_Atom*)calloc(d.atoms.size() ? d.atoms.size() : 1, sizeof(Crystal_Atom));
+    cs.atom = (Crystal_Atom*)calloc(d.atoms.size(), sizeof(Crystal_Atom));   // exact: no slack element behind an empty list
     for (size_t i = 0; i < d.atoms.size(); i++) {
       cs.atom[i].Zatom = d.atoms[i].Z; cs.atom[i].fraction = d.atoms[i].frac;
       cs.atom[i].x = d.atoms[i].x; cs.atom[i].y = d.atoms[i].y; cs.atom[i].z = d.atoms[i].z;
